@@ -77,6 +77,8 @@ def monolayers():
     out["MoS2-2H"] = mx2("MoS2", kind="2H", a=3.18, thickness=3.19, vacuum=None)
     out["MoS2-1T"] = mx2("MoS2", kind="1T", a=3.18, thickness=3.19, vacuum=None)
     out["WS2-2H"] = mx2("WS2", kind="2H", a=3.18, thickness=3.14, vacuum=None)
+    out["WSe2-2H"] = mx2("WSe2", kind="2H", a=3.32, thickness=3.36, vacuum=None)
+    out["MoTe2-2H"] = mx2("MoTe2", kind="2H", a=3.55, thickness=3.61, vacuum=None)
     return out
 
 
